@@ -485,3 +485,19 @@ Example ex5_nonlocal : croot_ok ex5_prog = true /\ wt_prog2 ex5_tys ex5_prog = t
   valid {| v_tys := ex5_tys; v_main := g; v_subs := [] |} = true /\
   existsb (fun r => ecode_eqb (classify ex5_tys g (redges g) r) EOk && negb (is_static (r_kind r))) (redges g) = true.
 Proof. split; [reflexivity|]. split; [vm_compute; reflexivity|]. eexists. split; [vm_compute; reflexivity|]. split; vm_compute; reflexivity. Qed.
+
+(* ------------------------------------------------------------------ why rule 10 needs the typing premise in the extended language *)
+(* The interpreter's wire dictionary keeps the wires of a separately built program after it has been inserted; they
+   name node indices of the INNER Hugr.  Here the inserted Dfg's Noop sits at inner index 3, and in the enclosing Hugr
+   index 3 is the Conditional under construction: the second case uses the dead wire, hugr-py (and the model) wire port
+   0 of the Conditional into its own case and add the order edge Conditional -> Conditional: a cycle.  wt_prog2 rejects
+   the program (the wire is dead outside the inserted program); there is no add_state_order in it. *)
+Definition ex6_tys : list tyinfo := [TAtom true; TSum true [[]; []]].
+Definition ex6_prog : prog2 :=
+  QDfg [0; 1] (Reg [1; 2]
+    (TCons (TCond 1 2 [1]
+       (CCons 0 (Reg [10] (TCons (TInsert 2 (QDfg [0] (Reg [20] (TCons (TOp 3 ONoop [20] [21]) TNil) [21])) [10] [11]) TNil) [11])
+       (CCons 1 (Reg [12] (TCons (TOp 4 ONoop [21] [13]) TNil) [13]) CNil)) [14]) TNil) [14]).
+Example ex6_dead_wire_cycle : croot_ok ex6_prog = true /\ wt_prog2 ex6_tys ex6_prog = false /\
+  exists g, run2 ex6_tys ex6_prog = Ok g /\ r_acyclic g = false.
+Proof. split; [reflexivity|]. split; [vm_compute; reflexivity|]. eexists. split; vm_compute; reflexivity. Qed.
